@@ -47,6 +47,8 @@ structure CCfg2 where
   delGuard : Bool          -- cache_deactivate swallows AttributeError
   fsrc : Nat → Nat         -- source read by front-end memoised method f (through its platform helper)
   pmemo : Nat → Bool       -- the platform helper reading source g carries @memoize_when_activated
+  storeKeep : Bool := false -- what-if: case 3 stores with `cache.setdefault(fun, ret)` WITHOUT rebinding `ret`
+                            -- (first store wins, the caller still returns its own read); today's code: plain store
 
 def CCfg2.srcOf (c : CCfg2) : Key → Nat
   | .fn f => c.fsrc f
@@ -145,6 +147,10 @@ def delAttr (s : St) : Lvl → St
 def store (s : St) (d : Nat) (key : Key) (e : Entry) : St :=
   { s with ents := fun d' => if d' = d then (fun k => if k = key then some e else s.ents d k) else s.ents d' }
 
+/-- the case-3 store of the wrapper: `cache[fun] = ret`, or (what-if) `cache.setdefault(fun, ret)` -/
+def storeM (c : CCfg2) (s : St) (d : Nat) (key : Key) (e : Entry) : St :=
+  if c.storeKeep && (s.ents d key).isSome then s else store s d key e
+
 /-- the platform level delivered `e`: store into the front-end dict that was looked up, or return -/
 def afterProc (s : St) (tid g cs : Nat) (fd : Option (Nat × Nat × Nat)) (e : Entry) (how : How) : St :=
   match fd with
@@ -179,8 +185,8 @@ def cstep (c : CCfg2) (s : St) (tid : Nat) : PC → Option St
       match od with
       | some (pd, _) => some (setPc s tid (.p4 g cs fd pd e))
       | none => some (afterProc s tid g cs fd e .computed)
-  | .p4 g cs fd pd e => some (afterProc (store s pd (.src g) e) tid g cs fd e .computed)
-  | .f4 f g cs d e how => some (setPc (store s d (.fn f) e) tid (.ret g cs e how))
+  | .p4 g cs fd pd e => some (afterProc (storeM c s pd (.src g) e) tid g cs fd e .computed)
+  | .f4 f g cs d e how => some (setPc (storeM c s d (.fn f) e) tid (.ret g cs e how))
   | .ret _ _ _ _ => some (setPc s tid .idle)
   | .retErr _ _ => some (setPc s tid .idle)
 
